@@ -809,3 +809,60 @@ Qed.
 
 Lemma wit_hull key : Forall hull_ok (p_chunks (wit_part key)).
 Proof. repeat constructor; intros t Ht; cbn in Ht |- *; lia. Qed.
+
+(* ------------------------------------------------------------------ a writer racing deleteJournal *)
+
+(* without a writer the racing visitor is the visitor *)
+Lemma visit_one_w_nil incl tp p : fst (visit_one_w incl tp p []) = fst (fst (visit_one incl tp p)).
+Proof.
+  unfold visit_one_w, visit_one. destruct (negb (p_match p) || p_excl p); [reflexivity|].
+  cbv zeta. rewrite !app_nil_r.
+  destruct (total_size (p_chunks p) =? 0) eqn:E0.
+  - destruct (tp_dry tp); [reflexivity|]. destruct (deletable p (p_chunks p)); [reflexivity|].
+    cbn [fst]. unfold set_chunks. destruct p; reflexivity.
+  - destruct (truncate incl tp (p_chunks p)) as [[n tr] cks'] eqn:ET. rewrite !app_nil_r.
+    destruct (tr =? total_size (p_chunks p)); cbn [andb]; [|reflexivity].
+    destruct (tp_dry tp); cbn [negb orb]; [reflexivity|].
+    destruct (deletable p cks'); reflexivity.
+Qed.
+
+(* whatever the writer appended up to the moment of the lock: a partition is dropped only when it holds no data
+   at that moment (the writer's data included) and nobody else holds it, and never in a dry run *)
+Lemma drop_race incl tp p w p' left : fst (visit_one_w incl tp p w) = Dropped p' left ->
+  p' = p /\ total_size left = 0 /\ p_readers p = O /\ tp_dry tp = false /\ p_match p = true /\ p_excl p = false /\
+  exists rest, left = rest ++ w.
+Proof.
+  unfold visit_one_w. destruct (negb (p_match p) || p_excl p) eqn:EM; [discriminate|].
+  apply orb_false_iff in EM as [EM1 EM2]. apply negb_false_iff in EM1. cbv zeta.
+  assert (D : forall l, deletable p l = true -> total_size l = 0 /\ p_readers p = O).
+  { intros l H. unfold deletable in H. apply andb_true_iff in H as [H1 H2]. apply Nat.eqb_eq in H1. apply N.eqb_eq in H2. auto. }
+  destruct (total_size (p_chunks p) =? 0).
+  - destruct (tp_dry tp) eqn:ED; [discriminate|]. destruct (deletable p (p_chunks p ++ w)) eqn:EDel; [|discriminate].
+    cbn [fst]. intros H. injection H as <- <-. destruct (D _ EDel). repeat split; auto. eexists; reflexivity.
+  - destruct (truncate incl tp (p_chunks p)) as [[n tr] cks'].
+    destruct ((tr =? total_size (p_chunks p)) && negb (tp_dry tp)) eqn:EC; [|discriminate].
+    apply andb_true_iff in EC as [_ EC]. apply negb_true_iff in EC.
+    destruct (deletable p (cks' ++ w)) eqn:EDel; [|discriminate].
+    cbn [fst]. intros H. injection H as <- <-. destruct (D _ EDel). repeat split; auto. eexists; reflexivity.
+Qed.
+
+(* hence: if the writer appended anything with data, the partition is kept and still has it *)
+Lemma race_keeps_data incl tp p w : (0 < total_size w) ->
+  match fst (visit_one_w incl tp p w) with
+  | Dropped _ _ => False
+  | Kept q => snd (visit_one_w incl tp p w) = true -> exists rest, p_chunks q = rest ++ w
+  end.
+Proof.
+  intros Hw. destruct (fst (visit_one_w incl tp p w)) as [q|q left] eqn:E.
+  - unfold visit_one_w in *. destruct (negb (p_match p) || p_excl p); [cbn; discriminate|]. cbv zeta in *.
+    destruct (total_size (p_chunks p) =? 0).
+    + destruct (tp_dry tp); [cbn; discriminate|]. destruct (deletable p (p_chunks p ++ w)); [discriminate|].
+      cbn in E. injection E as <-. intros _. eexists; reflexivity.
+    + destruct (truncate incl tp (p_chunks p)) as [[n tr] cks'].
+      destruct ((tr =? total_size (p_chunks p)) && negb (tp_dry tp)); [|cbn; discriminate].
+      destruct (deletable p (cks' ++ w)); [discriminate|]. cbn in E. injection E as <-. intros _. eexists; reflexivity.
+  - destruct (drop_race incl tp p w q left E) as (_ & Z0 & _ & _ & _ & _ & rest & ->).
+    assert (T : forall a b, total_size (a ++ b) = total_size a + total_size b).
+    { intros a b. unfold total_size. induction a as [|x a IH]; cbn [app fold_right]; [reflexivity|]. rewrite IH. lia. }
+    rewrite T in Z0. lia.
+Qed.
